@@ -750,7 +750,7 @@ Notes:
 
     def Finalize(self):
         """cleanup upon exiting the main optimization loop"""
-        if self.energy_history != None and self._live:
+        if self._energy_history is not None and self._live:
             self.energy_history = None # resync with 'best' energy
             self._stepmon(self.bestSolution, self.bestEnergy, self.id)
             # if savefrequency matches, then save state
